@@ -675,7 +675,7 @@ func min05(tr *Trace05, class string) *Trace05 {
 	if !test(&cur) {
 		return tr
 	}
-	keep := kit.DDMin(len(cur.Faults), func(idx []int) bool {
+	keep := kit.DDMinN(len(cur.Faults), 300, func(idx []int) bool {
 		t := cur
 		t.Faults = nil
 		for _, i := range idx {
@@ -699,6 +699,9 @@ func min05(tr *Trace05, class string) *Trace05 {
 	}
 	// simpler deltas
 	for i := range cur.Faults {
+		if len(cur.Faults) > 24 {
+			break
+		}
 		if cur.Faults[i].Kind == "cw" && cur.Faults[i].Delta != 1 {
 			old := cur.Faults[i].Delta
 			cur.Faults[i].Delta = 1
